@@ -394,7 +394,6 @@ class MachO(BinFormat):
             elif op == BIND_OPCODE_DO_BIND_ADD_ADDR_IMM_SCALED:
                 L.append(r.as_list())
                 r.seg_offset += im * l + l
-                cur += cnt
             elif op == BIND_OPCODE_DO_BIND_ULEB_TIMES_SKIPPING_ULEB:
                 count, cnt = read_uleb128(raw[cur:])
                 skip, cnt2 = read_uleb128(raw[cur + cnt :])
